@@ -1,15 +1,15 @@
 // bounded stand-in driver (appended to acts/src/package/tests/subflow.rs of a scratch copy): property C15.
 // A calling act stays open until its child process has terminated and is then closed exactly once, in the way the child ended:
 // completed / error (with the child's code and message) / aborted / skipped; a missing target model fails the calling act.
-// 12 scenarios (incl. a child whose outputs are named like the error fields; a calling act whose own catch takes the child's error; a calling act with declared outputs whose child errors / aborts): a timeout rule on the calling act finishing while the child is still open; the child's single irq act answered next / error(code) / abort / skip (the child then completes), a child script that throws (engine error, empty
+// 14 scenarios (incl. a calling process that has left the process cache -- its image is in the store -- when the child ends; a child whose outputs are named like the error fields; a calling act whose own catch takes the child's error; a calling act with declared outputs whose child errors / aborts): a timeout rule on the calling act finishing while the child is still open; the child's single irq act answered next / error(code) / abort / skip (the child then completes), a child script that throws (engine error, empty
 // code), a missing model at depth 1 and at depth 2.
 #[tokio::test]
 async fn verif_replay_hist_subflow_return() {
     use std::sync::{Arc, Mutex};
     let mut bad: Vec<String> = Vec::new();
     #[derive(Clone, Copy, Debug, PartialEq)]
-    enum Sc { Next, ErrorCode, Abort, Skip, ScriptThrows, Missing1, Missing2, TimeoutWhileChildOpen, ErrorCodeDeclaredOutputs, AbortDeclaredOutputs, ErrorCaughtByCallingAct, ErrorChildOutputsNamedLikeTheError }
-    for sc in [Sc::Next, Sc::ErrorCode, Sc::Abort, Sc::Skip, Sc::ScriptThrows, Sc::Missing1, Sc::Missing2, Sc::TimeoutWhileChildOpen, Sc::ErrorCodeDeclaredOutputs, Sc::AbortDeclaredOutputs, Sc::ErrorCaughtByCallingAct, Sc::ErrorChildOutputsNamedLikeTheError] {
+    enum Sc { Next, ErrorCode, Abort, Skip, ScriptThrows, Missing1, Missing2, TimeoutWhileChildOpen, ErrorCodeDeclaredOutputs, AbortDeclaredOutputs, ErrorCaughtByCallingAct, ErrorChildOutputsNamedLikeTheError, ParentEvictedNext, ParentEvictedError }
+    for sc in [Sc::Next, Sc::ErrorCode, Sc::Abort, Sc::Skip, Sc::ScriptThrows, Sc::Missing1, Sc::Missing2, Sc::TimeoutWhileChildOpen, Sc::ErrorCodeDeclaredOutputs, Sc::AbortDeclaredOutputs, Sc::ErrorCaughtByCallingAct, Sc::ErrorChildOutputsNamedLikeTheError, Sc::ParentEvictedNext, Sc::ParentEvictedError] {
         let target = if sc == Sc::Missing1 { "not_deployed" } else { "w2" };
         let mut main = Workflow::new().with_id("main").with_step(|step| step.with_id("step1"));
         if sc == Sc::TimeoutWhileChildOpen {
@@ -27,6 +27,8 @@ async fn verif_replay_hist_subflow_return() {
         } else {
             main.steps[0].acts.push(Act::subflow(json!({ "to": target })).with_id("call1"));
         }
+        // the calling process has a second step, so that it is still there to be looked at after the return
+        if sc == Sc::ParentEvictedNext { main = main.with_step(|step| step.with_id("step2").with_act(Act::irq(|act| act.with_key("act2")).with_id("act2"))); }
         let w2 = match sc {
             Sc::ScriptThrows => Workflow::new().with_id("w2").with_step(|step| step.with_id("s1").with_act(Act::code(r#"throw new Error("boom in child");"#).with_id("code1"))),
             Sc::Missing2 => Workflow::new().with_id("w2").with_step(|step| step.with_id("s1").with_act(Act::subflow(json!({ "to": "not_deployed" })).with_id("call2"))),
@@ -39,12 +41,22 @@ async fn verif_replay_hist_subflow_return() {
         let call_msgs: Arc<Mutex<Vec<String>>> = Arc::new(Mutex::new(Vec::new()));
         let cm = call_msgs.clone();
         let child_done_before: Arc<Mutex<Option<bool>>> = Arc::new(Mutex::new(None));
+        let (cache, main_pid) = (scher.cache().clone(), proc.id().to_string());
+        let main_pid2 = main_pid.clone();
+        let events: Arc<Mutex<Vec<String>>> = Arc::new(Mutex::new(Vec::new()));
+        let (ev1, ev2, ev3) = (events.clone(), events.clone(), events.clone());
+        emitter.on_complete(move |e| { ev1.lock().unwrap().push(format!("complete:{}", e.model.id)); });
+        emitter.on_error(move |e| { ev2.lock().unwrap().push(format!("error:{}:{}", e.model.id, e.inputs.get::<String>(consts::ACT_ERR_CODE).unwrap_or_default())); });
         emitter.on_message(move |e| {
             if e.nid == "call1" { cm.lock().unwrap().push(e.state.to_string()); }
+            if e.is_key("act2") && e.is_state(MessageState::Created) { ev3.lock().unwrap().push("parent:act2".to_string()); }
             if e.is_key("act1") && e.is_state(MessageState::Created) && sc != Sc::TimeoutWhileChildOpen {
+                // the calling process only waits now: it leaves the cache, its image stays in the store
+                if sc == Sc::ParentEvictedNext || sc == Sc::ParentEvictedError { cache.uncache(&main_pid2); }
                 let mut options = Vars::new();
                 let action = match sc {
-                    Sc::Next => EventAction::Next,
+                    Sc::Next | Sc::ParentEvictedNext => EventAction::Next,
+                    Sc::ParentEvictedError |
                     Sc::ErrorCode | Sc::ErrorCodeDeclaredOutputs | Sc::ErrorCaughtByCallingAct | Sc::ErrorChildOutputsNamedLikeTheError => { options.set(consts::ACT_ERR_CODE, "err1"); options.set(consts::ACT_ERR_MESSAGE, "sub workflow error"); EventAction::Error }
                     Sc::Abort | Sc::AbortDeclaredOutputs => EventAction::Abort,
                     _ => EventAction::Skip,
@@ -64,13 +76,30 @@ async fn verif_replay_hist_subflow_return() {
             }
             continue;
         }
+        if sc == Sc::ParentEvictedNext || sc == Sc::ParentEvictedError {
+            // the live process is no longer `proc` (that object left the cache): judged from the events and from the process the runtime hands out
+            let want_event = if sc == Sc::ParentEvictedNext { "parent:act2" } else { "error:main:err1" };
+            let mut left = 5000u64;
+            while left > 0 && !events.lock().unwrap().iter().any(|e| e == want_event) { tokio::time::sleep(std::time::Duration::from_millis(25)).await; left = left.saturating_sub(25); }
+            tokio::time::sleep(std::time::Duration::from_millis(100)).await;
+            let evs = events.lock().unwrap().clone();
+            let mut diffs: Vec<String> = Vec::new();
+            if !evs.iter().any(|e| e == want_event) { diffs.push(format!("5 s after the child ended the calling process has not taken the return: events {evs:?}, expected {want_event}")); }
+            if sc == Sc::ParentEvictedNext {
+                let st = scher.proc(&main_pid).and_then(|p| p.task_by_nid("call1").first().map(|t| t.state()));
+                if st != Some(TaskState::Completed) { diffs.push(format!("the calling act (of the re-loaded calling process) is {st:?}, the child's ending asks for Completed")); }
+                if evs.iter().filter(|e| e.as_str() == "parent:act2").count() > 1 { diffs.push(format!("the calling act was closed more than once: {evs:?}")); }
+            }
+            if !diffs.is_empty() { bad.push(format!("REPLAY-FAIL scenario {sc:?}: {}", diffs.join("; "))); }
+            continue;
+        }
         let mut left = 5000u64;
         while left > 0 && !proc.state().is_completed() { tokio::time::sleep(std::time::Duration::from_millis(25)).await; left = left.saturating_sub(25); }
         tokio::time::sleep(std::time::Duration::from_millis(100)).await;
         let call1 = proc.task_by_nid("call1").first().cloned();
         let st = call1.as_ref().map(|t| t.state());
         // a skipped act does not skip the child process: the child completes, so does the calling act
-        let want = match sc { Sc::Next | Sc::Skip | Sc::ErrorCaughtByCallingAct => TaskState::Completed, Sc::Abort | Sc::AbortDeclaredOutputs => TaskState::Aborted, _ => TaskState::Error };
+        let want = match sc { Sc::Next | Sc::Skip | Sc::ErrorCaughtByCallingAct | Sc::ParentEvictedNext => TaskState::Completed, Sc::Abort | Sc::AbortDeclaredOutputs => TaskState::Aborted, _ => TaskState::Error };
         let mut diffs: Vec<String> = Vec::new();
         if st != Some(want.clone()) { diffs.push(format!("the calling act ends {st:?}, the child's ending asks for {want:?} (main process: {})", proc.state())); }
         if !proc.state().is_completed() { diffs.push(format!("the calling process is still {} 5 s after the child ended", proc.state())); }
@@ -82,7 +111,7 @@ async fn verif_replay_hist_subflow_return() {
         if let Some(t) = &call1 {
             match sc {
                 Sc::ErrorChildOutputsNamedLikeTheError => { let e = t.err(); if e.as_ref().map(|e| (e.ecode.as_str(), e.message.as_str())) != Some(("err1", "sub workflow error")) { diffs.push(format!("the calling act does not carry the child's error code and message but {e:?}")); } }
-                Sc::ErrorCode | Sc::ErrorCodeDeclaredOutputs => { let e = t.err(); if e.as_ref().map(|e| e.ecode.as_str()) != Some("err1") { diffs.push(format!("the calling act does not carry the child's error code: {e:?}")); } }
+                Sc::ErrorCode | Sc::ErrorCodeDeclaredOutputs | Sc::ParentEvictedError => { let e = t.err(); if e.as_ref().map(|e| e.ecode.as_str()) != Some("err1") { diffs.push(format!("the calling act does not carry the child's error code: {e:?}")); } }
                 Sc::ScriptThrows => { let e = t.err(); if !e.as_ref().map(|e| e.message.contains("boom in child")).unwrap_or(false) { diffs.push(format!("the calling act does not carry the child's error message: {e:?}")); } }
                 _ => {}
             }
